@@ -118,7 +118,9 @@ int main(int argc, char** argv) {
       std::ostringstream w; w << 1.5 << 12; std::istringstream r("1 2"); int z; r >> z;
       std::thread t0([]() { IntPolynomial* p = new_IntPolynomial(8); delete_IntPolynomial(p); }); t0.join(); }      // one-time allocations of the threading runtime
     objects();
-    polyops();
+    { fflush(stdout); pid_t pid = fork(); if (pid == 0) { polyops(); fflush(stdout); _exit(0); }        // in a child: a fault is an observation
+      int st = 0; waitpid(pid, &st, 0);
+      if (!(WIFEXITED(st) && WEXITSTATUS(st) == 0)) { VH_B; vh_s("e", "Crash"); VH_C; vh_s("scen", "polyops"); VH_C; vh_s("cfg", led::guard.load() ? "guard pages" : "red zones"); VH_C; vh_i("fill", led::fill.load()); VH_C; vh_i("sig", WIFSIGNALED(st) ? WTERMSIG(st) : -WEXITSTATUS(st)); VH_E; } }
     threads((int)vh_arg(argc, argv, "--threads", 4));
     std::vector<long> ns = vh_list(vh_sarg(argc, argv, "--n", "1,3,7,8,9,64"));
     // (l, Bgbit, t, basebit): valid layouts (l*Bgbit >= 20, t*basebit >= 15), incl. the extremes l*Bgbit = 32, t*basebit = 31, Bgbit = 2, basebit = 1
